@@ -184,9 +184,22 @@ def flat_rules(rep, mod):
             continue
         seen += 1
         cal = [demangle1(c.callee) for c in f.calls() if c.callee]
-        ok = any(('std::' + want[b]) in x for x in cal)
+        # the storage of flat_map is NOT kept sorted (operator[] and emplace append): a lookup has to scan it by key equality
+        # (std::find_if / std::count_if today, a hand-written loop is as good - WHICH element it returns is decided by
+        # c02_flat on storages in several orders); a search that presupposes ascending keys is wrong whatever its form
+        ordered = [x.split('<')[0].split('(')[0] for x in cal
+                   if any(('std::' + w) in x for w in ('lower_bound', 'upper_bound', 'binary_search', 'equal_range'))]
+        ok = not ordered
+        if b == 'insert':
+            # insert positions the new element with upper_bound and tests for a duplicate separately: which search serves
+            # which purpose is not visible in the call list when the duplicate test is hand-written - c02_flat decides it
+            if ordered and not any(('std::' + want[b]) in x for x in cal):
+                continue
+            ok = True
         rep.inst('R-FLATSEARCH', f.qualname + sig_suffix(f), 'lookup-by-key-equality-scan', ok, '%s:%d' % (f.file, f.line),
-                 None if ok else '%s no longer looks the key up with std::%s over the whole storage' % (b, want[b]))
+                 None if ok else '%s looks the key up with %s, which presupposes ascending keys; the storage of flat_map is in '
+                 'insertion order (operator[] and emplace append)' % (b, ', '.join(sorted(set(ordered)))),
+                 fact={'scan': 'std::' + want[b] if any(('std::' + want[b]) in x for x in cal) else 'hand-written'})
     if seen < 8:
         raise AnalysisBroken('flat_map lookups instantiated: %d' % seen)
 
@@ -307,7 +320,7 @@ def run(rep, repo, tier):
     rep.floor('R-VALUEINIT', 1)
     flat_rules(rep, modf)
     rep.floor('R-TEMPREF', 10)
-    rep.floor('R-FLATSEARCH', 8)
+    rep.floor('R-FLATSEARCH', 7)
     rep.floor('R-VEC:invariant', 150)
     rep.floor('R-VEC:ownership', 60)
     rep.floor('R-VEC:bounds', 40)
